@@ -153,6 +153,10 @@ class Calls(DataModels):
         if key is not None:
             if key == ('elftools/common/utils.py', 'struct_parse'):
                 return self.struct_parse(I, args, kw, node)
+            if key == ('elftools/construct/macros.py', 'Array') and len(args) == 2 and isinstance(args[1], StructRef):
+                r = StructRef('Array', None)
+                r.array = (args[0], args[1])
+                return r
             if key[0].startswith('elftools/construct/') and key not in self.registry and \
                     all(isinstance(a, (str, bytes, int, type(None))) for a in list(args) + list(kw.values())):
                 # construct factory macros with concrete arguments build a real construct object
@@ -648,6 +652,8 @@ class Calls(DataModels):
 
     def parse_at(self, I, struct, stream, ln, exc='ELFParseError'):
         p = stream.pos
+        if isinstance(struct, StructRef) and getattr(struct, 'array', None):
+            return self.parse_array(I, struct.array[0], struct.array[1], stream, ln, exc)
         if isinstance(struct, StructRef) and struct.name == 'Elf_ntbs':
             lay = cstring_layout(b'\x00', getattr(struct, 'kw', {}).get('encoding'))
             owner = struct.owner
@@ -676,11 +682,41 @@ class Calls(DataModels):
             raise PyExc(exc if exc != 'ConstructError' else 'FieldError', ln, 'short read in %s' % lay.name)
         mk = UFMaker(I.ctx, stream.arr, pz, lay.name)
         val = self.layout_value(I, lay, mk)
+        for fname, lo, exact in getattr(lay, 'offset_facts', None) or []:
+            # StreamOffset members: positions inside the struct (from the specification layout)
+            if isinstance(val, SRec) and fname in val.fields:
+                fv = to_int(val.fields[fname])
+                I.ctx.assume(fv == pz + lo if exact else fv >= pz + lo)
         if size is not None:
             stream.pos = z3.simplify(pz + to_int(size))
         else:
             stream.pos = z3.Function('end!' + lay.name, ArrS, IntS, IntS)(stream.arr, pz)
         return val
+
+    def parse_array(self, I, count, sub, stream, ln, exc):
+        """Array(count, <fixed-size primitive>): count adjacent values from the stream position
+        (construct's Array raises when fewer are available; a non-positive count is empty)"""
+        lay = LAYOUTS.get(sub.name)
+        if lay is None or getattr(lay, 'custom', None) or isinstance(lay.fields, dict):
+            raise Unsupported('Array of %s' % sub.name)
+        size = lay.size(sub.owner) if callable(lay.size) else lay.size
+        if size is None:
+            raise Unsupported('Array of variable-size %s' % sub.name)
+        n, p, L = to_int(count), to_int(stream.pos), to_int(stream.length)
+        if I.ctx.branch(n <= 0):
+            return []
+        if not I.ctx.branch(p + n * to_int(size) <= L):
+            raise PyExc(exc if exc != 'ConstructError' else 'ArrayError', ln, 'short read in array of %s' % lay.name)
+        arr = stream.arr
+        stream.pos = z3.simplify(p + n * to_int(size))
+        f = z3.Function(lay.name, ArrS, IntS, IntS)
+        jv = z3.Int('j!arr')
+        sh = lay.fields
+        lo, hi = getattr(sh, 'lo', None), getattr(sh, 'hi', None)
+        cs = [c for c in ((f(arr, jv) >= lo) if lo is not None else None, (f(arr, jv) < hi) if hi is not None else None) if c is not None]
+        if cs:
+            I.ctx.assume(z3.ForAll([jv], z3.And(*cs), patterns=[f(arr, jv)]))
+        return SList(lambda i, arr=arr, p=p, size=size: f(arr, p + to_int(i) * to_int(size)), n, 'array')
 
     def layout_value(self, I, lay, mk):
         if isinstance(lay.fields, dict):
